@@ -335,6 +335,7 @@ func c02Run(c *lib.Ctx) {
 	for s, n := range sites {
 		c.Count("deviated_at:"+s, n)
 	}
+	c02Schedules(c)
 	c02Processes(c)
 	c.Rep.Traces = c.Rep.Evaluations
 }
@@ -342,7 +343,7 @@ func c02Run(c *lib.Ctx) {
 func init() {
 	lib.Register(&lib.Check{
 		ID: "C02", Level: "model_checking",
-		Rule:      "map-iteration-order exploration (the runtime's randomised order as scheduler): for every case = (database: 12 identical entries, all sequences of <=2 of a 10-entry tie-rich pool, 12 (quick) / 228 (thorough) longer sequences, the 40-entry database, a 14-entry database of short overlapping entries, 3 main+notebook pairs merged by LoadDatabaseWithPersonal with equal-scoring notebook entries) x 19 queries (lexical, 11-13-word, NLP-expanded, typo-fallback) x {NLP, fuzzy} x limit {1,2,50} + GetSuggestions, the execution 'load the database through the real loader, then search' is run under the canonical order and under every schedule deviating at <=1 dynamic range point (<=2 on short databases, thorough), a deviating point taking every permutation (<=4 keys) or reverse / rotate / every adjacent transposition (<=12 keys) / 6 spread transpositions (more keys); the ordered (entry, score-bits) list must be identical. states = cases (canonical executions); transitions = deviating executions; every execution runs the real code (traces validated = evaluations). non-trivial = cases with a non-empty answer. Process form: the instrumented binary (`wtf --format json -v`) is run under four forced whole-process map orders (sorted, reverse, rotate, swap) on 30 (database, query) cases and on the shipped 6,619-entry database for 40 queries, and the plain binary five times per case; outputs must be byte-identical after dropping the timing line",
+		Rule:      "map-iteration-order exploration (the runtime's randomised order as scheduler): for every case = (database: 12 identical entries, all sequences of <=2 of a 10-entry tie-rich pool, 12 (quick) / 228 (thorough) longer sequences, the 40-entry database, a 14-entry database of short overlapping entries, 3 main+notebook pairs merged by LoadDatabaseWithPersonal with equal-scoring notebook entries) x 19 queries (lexical, 11-13-word, NLP-expanded, typo-fallback) x {NLP, fuzzy} x limit {1,2,50} + GetSuggestions, the execution 'load the database through the real loader, then search' is run under the canonical order and under every schedule deviating at <=1 dynamic range point (<=2 on short databases, thorough), a deviating point taking every permutation (<=4 keys) or reverse / rotate / every adjacent transposition (<=12 keys) / 6 spread transpositions (more keys); the ordered (entry, score-bits) list must be identical. states = cases (canonical executions); transitions = deviating executions; every execution runs the real code (traces validated = evaluations). non-trivial = cases with a non-empty answer. Process form: the instrumented binary (`wtf --format json -v`) is run under four forced whole-process map orders (sorted, reverse, rotate, swap) on 30 (database, query) cases and on the shipped 6,619-entry database for 40 queries, and the plain binary five times per case; outputs must be byte-identical after dropping the timing line. Schedule form: goroutines started by the search itself (rewritten go statements) run under the controlled scheduler; 6 (database, query) cases on a 320-entry look-alike database and the shipped one, every interleaving with <=2 preemptions must give the canonical answer (a single execution each while the search starts no goroutine)",
 		Assume:    []string{"all map ranges of the repository are routed through vmap by the build overlay (sites listed under instrumentation)", "sort.Slice is deterministic for a given input order", "maps with more than 4 keys get the menu, not all n! orders"},
 		QuickSecs: 360, ThorSecs: 2400, Graph: true,
 		Run: c02Run,
@@ -378,7 +379,102 @@ func init() {
 			if n < 6 {
 				return fmt.Sprintf("vacuous: only %d map-range sites were deviating points", n)
 			}
+			if m.Counters["schedule_cases_with_results"] < 6 {
+				return fmt.Sprintf("vacuous: only %d of the 6 schedule cases returned any result", m.Counters["schedule_cases_with_results"])
+			}
 			return ""
 		},
 	})
+}
+
+// c02Schedules: goroutines the search itself starts (rewritten `go` statements) are threads of the
+// controlled scheduler; every interleaving of one SearchUniversal call with <=2 preemptions must give
+// the canonical answer. On a tree whose search starts no goroutine this is a single execution per case.
+func c02Schedules(c *lib.Ctx) {
+	if c.Shard >= 4 {
+		return
+	}
+	// 320 entries: every 8th is one of a family of 40 look-alikes (same words apart from their own name, hence
+	// exactly equal lexical score and TF-IDF similarity); the rest is unrelated filler, so the family's words
+	// keep a useful IDF. The tie straddles the middle of the list, the NLP candidate window and any top list.
+	var cmds []Cmd
+	for i := 0; i < 320; i++ {
+		if i%8 == 0 {
+			cmds = append(cmds, Cmd{Command: fmt.Sprintf("unit%04d reload", i), Description: "reload unit", Keywords: []string{"reload"}})
+		} else {
+			cmds = append(cmds, Cmd{Command: fmt.Sprintf("filler%04d run", i), Description: fmt.Sprintf("job number%04d of the nightly batch", i), Keywords: []string{fmt.Sprintf("batch%04d", i)}})
+		}
+	}
+	db := uMustDB(c, cmds)
+	shipped := dbSpec{Special: "shipped"}.build(c)
+	type sc struct {
+		db   string
+		q    string
+		opts Opts
+	}
+	cases := []sc{
+		{"lookalike320", "reload unit", Opts{Limit: 5, UseNLP: true, AllPlatforms: true}},
+		{"lookalike320", "reload unit", Opts{Limit: 3, UseNLP: true, UseFuzzy: true, AllPlatforms: true}},
+		{"lookalike320", "nightly batch", Opts{Limit: 4, AllPlatforms: true}},
+		{"shipped", "disk usage", Opts{Limit: 5, UseNLP: true, UseFuzzy: true, FuzzyThreshold: -30}},
+		{"shipped", "move disk", Opts{Limit: 5, UseNLP: true}},
+		{"shipped", "compress files", Opts{Limit: 10, UseNLP: true}},
+	}
+	for i, cs := range cases {
+		if i%4 != c.Shard {
+			continue
+		}
+		d := db
+		if cs.db == "shipped" {
+			d = shipped
+		}
+		canon := ""
+		nonEmpty := false
+		var bad *lib.Violation
+		e := &schedExplorer{Bound: 2, MaxExecs: 3000}
+		e.Body = func() ([]func(), func(*schedExec)) {
+			var got string
+			body := func() {
+				var sb strings.Builder
+				for _, r := range d.SearchUniversal(cs.q, cs.opts) {
+					fmt.Fprintf(&sb, "%s:%016x;", r.Command.Command, math.Float64bits(r.Score))
+				}
+				sb.WriteString(" | nlp: ")
+				for _, r := range d.SearchWithNLP(cs.q, cs.opts) {
+					fmt.Fprintf(&sb, "%s:%016x;", r.Command.Command, math.Float64bits(r.Score))
+				}
+				got = sb.String()
+				if strings.Count(got, ":") > 0 {
+					nonEmpty = true
+				}
+			}
+			return []func(){body}, func(x *schedExec) {
+				if canon == "" {
+					canon = got
+				}
+				if got != canon && bad == nil {
+					bad = &lib.Violation{Key: "schedule-dependent-answer:" + cs.db, What: fmt.Sprintf("SearchUniversal / SearchWithNLP (%q) on the %s database give a different answer depending on how the goroutines it starts are interleaved [schedule: %s]", cs.q, cs.db, schedDescribe(x)),
+						Case: c02Case{Query: q(cs.q), Opts: cs.opts, What: "schedule:" + cs.db}, Observed: truncStr(got, 800), Expected: truncStr(canon, 800)}
+				}
+			}
+		}
+		e.Explore()
+		c.Rep.Evaluations += e.Execs
+		c.Rep.Transitions += e.Execs
+		c.Count("schedule_cases", 1)
+		if nonEmpty {
+			c.Count("schedule_cases_with_results", 1)
+		}
+		c.Count("schedule_executions", e.Execs)
+		c.Count("goroutines_started_by_search", int64(e.Spawned))
+		if bad != nil {
+			c.Violate(*bad)
+		}
+		if e.Stuck {
+			c.Note("schedule exploration abandoned for %q: an execution blocked outside the controlled scheduler", cs.q)
+			c.Rep.Exhaustive = false
+			c.Rep.Cap = "search blocks on a primitive the scheduler does not control"
+			return
+		}
+	}
 }
